@@ -14,9 +14,13 @@
      model, for every cell of the tables and for the generated (constraint, versions) pairs;
    - Resolve: locked versions position-wise in the same precedence class as the model's and
      each a real candidate of the index;
-   - parse/compare: fields of semver.NewVersion and the result of Version.Compare. *)
+   - parse/compare: fields of semver.NewVersion and the result of Version.Compare;
+   - OCI tag listings (registry stub serving pages): Client.Tags against Tags.client_tags on the
+     pages (same strings as a multiset, position-wise the same precedence class);
+     ValidateReference and GetTagMatchingVersionOrConstraint on the OBSERVED tag list,
+     compared exactly. *)
 From Coq Require Import List String Ascii Bool NArith.
-From Helm Require Import Misc.Semver Misc.Constraint Misc.Index.
+From Helm Require Import Misc.Semver Misc.Constraint Misc.Index Misc.Tags.
 Import ListNotations.
 Local Open Scope string_scope.
 
@@ -28,6 +32,16 @@ Inductive res_obs := ORErr | ORPanic | OROk (vs : list string).
 (* one version string as the library parsed it: major, minor, patch, identifiers of
    Prerelease(), Metadata() *)
 Record ver_obs := mkVO { vo_s : string; vo_parsed : option (N * N * N * list string * string) }.
+Inductive vr_obs := OVOk (t : string) | OVErr | OVPanic.
+
+(* one paged listing: the pages as served, what Client.Tags returned (None = error), and per
+   version argument the answers of ValidateReference and of the tag match on those tags *)
+Record oci_obs := mkOci {
+  o_pages : list (list string);
+  o_tags : option (list string);
+  o_qs : list (string * vr_obs * tag_obs)
+}.
+
 Record cmp_obs := mkCmp { cm_a : ver_obs; cm_b : ver_obs; cm_cmp : option comparison }.
 
 Record case := mkCase {
@@ -41,7 +55,8 @@ Record case := mkCase {
   c_cmps : list cmp_obs;
   c_cvers : list string;                              (* shared version list of c_cfix *)
   c_cfix : list (string * option string);             (* c -> None (NewConstraint failed) | Check bits *)
-  c_cpairs : list (string * list string * option string)   (* the same with own version lists *)
+  c_cpairs : list (string * list string * option string);  (* the same with own version lists *)
+  c_oci : list oci_obs
 }.
 
 (* ---- tables ---- *)
@@ -240,9 +255,44 @@ Definition cpairs_ok (c : case) : bool :=
   forallb (fun p => cpair_ok (fst p) shared (snd p)) (c_cfix c) &&
   forallb (fun q => let '(k, vs, o) := q in cpair_ok k (map parse_version vs) o) (c_cpairs c).
 
+(* ---- OCI tag listings ---- *)
+
+Definition count_str (s : string) (l : list string) : nat := List.length (filter (String.eqb s) l).
+
+Definition same_str_multiset (l1 l2 : list string) : bool :=
+  Nat.eqb (List.length l1) (List.length l2) &&
+  forallb (fun s => Nat.eqb (count_str s l1) (count_str s l2)) l1.
+
+Definition same_sprec (a b : string) : bool :=
+  match strict_parse a, strict_parse b with
+  | Some x, Some y => match scompare x y with Eq => true | _ => false end
+  | _, _ => false
+  end.
+
+Definition tag_lists_agree (m o : list string) : bool :=
+  same_str_multiset m o && list_eqb same_sprec m o.
+
+Definition vr_agree (m : vr_result) (o : vr_obs) : bool :=
+  match m, o with
+  | VROk t, OVOk t' => String.eqb t t'
+  | VRErrNoTags, OVErr | VRErrConstraint, OVErr | VRErrNotFound, OVErr => true
+  | _, _ => false
+  end.
+
+Definition oci_ok (q : oci_obs) : bool :=
+  match o_tags q with
+  | None => false                                  (* the stub's listing is always well-formed *)
+  | Some obs_tags =>
+      tag_lists_agree (client_tags sisort (o_pages q)) obs_tags &&
+      forallb (fun x => let '(v, vr, tm) := x in
+                        vr_agree (validate_reference_tags cvalid sat obs_tags v) vr &&
+                        tag_agree (tag_match cvalid sat obs_tags v) tm)
+              (o_qs q)
+  end.
+
 Definition case_ok (c : case) : bool :=
   load_ok c && gets_ok c && tags_ok c && res_ok c && forallb cmp_ok (c_cmps c) && star_ok c &&
-  ctables_ok c && cpairs_ok c.
+  ctables_ok c && cpairs_ok c && forallb oci_ok (c_oci c).
 
 Fixpoint mismatches_from (i : nat) (cs : list case) : list nat :=
   match cs with
